@@ -1003,6 +1003,9 @@ def qualified_types_do_not_fall_back(F, res, rule="S15"):
            sites > 0 and not bad, where=f.loc(), how="unqualified lookups: %d; reached although a module qualifier may be present: %s" % (sites, bad))
 
 
+S16_REVIEWED = {}
+
+
 def lowering_visits_every_child(F, res, rule="S16"):
     """S16: scopes, inference and every feature work on the lowered body. An AST node the lowering turns into `Missing` without
     looking inside takes everything written in it out of the analysis: the names in it resolve to nothing or - for a lambda, a
@@ -1054,3 +1057,24 @@ def lowering_visits_every_child(F, res, rule="S16"):
                    ok, where=fn.loc(t["ln"]), how="accessors called in the arm: %s" % sorted(called) if called or target != t["otherwise"]
                    else "falls into the catch-all arm: lowered to Missing, its children never reach scopes or inference")
     res.floor("expression-bearing AST variants lowered", n, 20)
+    # every node type the lowering looks into: all of its accessors that yield expressions / patterns / statements are used
+    # somewhere in the lowering (a clause has patterns, a guard and a body; a let has a pattern and a value ..)
+    units = [f for p_, f in F.fns.items() if p_.startswith("ide::def::body::BodyLowerCtx::") and f.blocks]
+    called = {}
+    for u in units:
+        for b, tt in u.calls():
+            c = callee(tt) or callee_def(tt) or ""
+            if c.startswith("syntax::ast::") and c.count("::") >= 3:
+                node, m = c.rsplit("::", 1)
+                called.setdefault(node, set()).add(m)
+    m_ = 0
+    for node in sorted(called):
+        bear = sorted(m for m, T, _i in acc.get(node, []) if T in bearing)
+        if node not in bearing or not bear:
+            continue
+        m_ += 1
+        missing = [m for m in bear if m not in called[node] and (node.rsplit("::", 1)[-1], m) not in S16_REVIEWED]
+        res.ob(rule, "children/%s" % node.rsplit("::", 1)[-1], "the lowering uses every accessor of %s that yields expressions, patterns or statements %s"
+               % (node.rsplit("::", 1)[-1], bear), not missing, where="crates/ide/src/def/body.rs",
+               how="never asked: %s" % missing if missing else "asked: %s" % sorted(called[node] & set(bear)))
+    res.floor("AST node types the lowering looks into", m_, 15)
